@@ -68,6 +68,14 @@ Section Req02.
     intros s t (_ & _ & Hd). apply Hd. exact Hin.
   Qed.
 
+  Lemma get_target_02 : forall s0 cs c x, (forall c0, In c0 cs -> is_data c0 = true) -> In c cs -> coll_path c = true ->
+    calm (J02 s0 cs) (get_target lay c x).
+  Proof.
+    intros s0 cs c x Hcd Hin Hc.
+    apply (calm_get_target _ (J02_ok s0 cs Hcd) (J02_fail s0 cs) c); [ | apply coll_ne; exact Hc | apply coll_is_data; exact Hc].
+    intros s t (_ & _ & Hd). apply Hd. exact Hin.
+  Qed.
+
   Lemma request_c02 : forall r u s0 t, unit_of r = Some u -> request_wf r -> dirs_exist (request_dirs02 r) s0 -> fs_inv_weak s0 ->
     machine_wp (request_prog lay r) (AFT u s0) (fun _ => OUT u s0) (OUT u s0) s0 t.
   Proof.
@@ -77,15 +85,16 @@ Section Req02.
       assert (Hcd : forall c0, In c0 [c] -> is_data c0 = true) by (intros c0 Hin; apply in1 in Hin; subst; apply coll_is_data; exact Hc).
       assert (HJ : J02 s0 [c] s0 t) by (split; [exact Hi | split; [apply abs_eq_refl | exact Hd]]).
       apply mw_read.
-      assert (Hgo : forall xs, machine_wp (Seq (get_many lay c xs false) (upload lay c h v exp)) (AFT (UUpload c h v exp) s0)
+      assert (Hgo : forall (pre : P), calm (J02 s0 [c]) pre -> machine_wp (Seq pre (upload lay c h v exp)) (AFT (UUpload c h v exp) s0)
                                  (fun _ => OUT (UUpload c h v exp) s0) (OUT (UUpload c h v exp) s0) s0 t).
-      { intro xs. apply (pre_then _ s0 [c]); [apply get_many_02; auto; left; reflexivity | exact HJ |].
+      { intros pre Hpre. apply (pre_then _ s0 [c]); [exact Hpre | exact HJ |].
         intros s1 t1 H1. apply (unit_from lay (UUpload c h v exp) s0 [c]); [split; assumption | auto | exact H1]. }
-      destruct (look s0 (c ++ [h])) as [[|v0]|]; apply Hgo.
+      destruct (look s0 (c ++ [h])) as [[|v0]|]; apply Hgo; try (apply get_many_02; auto; left; reflexivity).
+      apply get_target_02; auto. left. reflexivity.
     - (* RDeleteItem *) destruct Hwf as [Hc Hh].
       assert (Hcd : forall c0, In c0 [c] -> is_data c0 = true) by (intros c0 Hin; apply in1 in Hin; subst; apply coll_is_data; exact Hc).
       assert (HJ : J02 s0 [c] s0 t) by (split; [exact Hi | split; [apply abs_eq_refl | exact Hd]]).
-      apply (pre_then _ s0 [c]); [apply get_many_02; auto; left; reflexivity | exact HJ |].
+      apply (pre_then _ s0 [c]); [apply get_target_02; auto; left; reflexivity | exact HJ |].
       intros s1 t1 H1. apply (unit_from lay (UDeleteItem c h exp) s0 [c]); [split; assumption | auto | exact H1].
     - (* RDeleteColl *)
       assert (Hcd : forall c0, In c0 [c] -> is_data c0 = true) by (intros c0 Hin; apply in1 in Hin; subst; apply coll_is_data; exact Hwf).
@@ -97,7 +106,7 @@ Section Req02.
     - (* RMove *) destruct Hwf as (H1 & H2 & H3 & H4 & H5 & H6).
       assert (Hcd : forall c0, In c0 [c; c'] -> is_data c0 = true) by (intros c0 [<- | [<- | []]]; apply coll_is_data; assumption).
       assert (HJ : J02 s0 [c; c'] s0 t) by (split; [exact Hi | split; [apply abs_eq_refl | exact Hd]]).
-      cbn [seqs]. apply (pre_then _ s0 [c; c']); [apply get_many_02; auto; left; reflexivity | exact HJ |].
+      cbn [seqs]. apply (pre_then _ s0 [c; c']); [apply get_target_02; auto; left; reflexivity | exact HJ |].
       intros s1 t1 Hs1. apply mw_seq.
       assert (Hmid : calm (J02 s0 [c; c']) (Read (c' ++ [h']) (fun n => match n with
                   | Some (F _) => get_many lay c' [h'] false
